@@ -235,6 +235,7 @@ static void check_devices(const char* when)
         if (m->double_open) oracle("device-%d-opened-twice-without-close (%s)", d, when);
         if (m->closed_while_running) oracle("device-%d-closed-while-running (%s)", d, when);
         if (m->start_while_running) oracle("%s-device-%d-started-while-running (%s)", d == 2 || d == 3 || d == 5 ? "storage" : "camera", d, when);
+        if (m->start_unconfigured) oracle("storage-device-%d-started-while-awaiting-configuration n=%u (%s)", d, m->start_unconfigured, when);
         if (m->stop_without_start) oracle("device-%d-stopped-without-start n=%u (%s)", d, m->stop_without_start, when);
         if (m->frame_outside_running) oracle("device-%d-get_frame-outside-running (%s)", d, when);
         if (m->append_outside_running) oracle("device-%d-append-outside-running (%s)", d, when);
@@ -590,6 +591,8 @@ static void run_child(char* spec)
         else if (sscanf(g_faults[i], "camstartfail %d %d", &d, &c) == 2) g_mock.cam_start_fails[d] = c;
         else if (sscanf(g_faults[i], "openfail %d %d", &d, &c) == 2) g_mock.open_fails[d] = c;
         else if (sscanf(g_faults[i], "descfail %d %d", &d, &c) == 2) g_mock.desc_fails[d] = c;
+        else if (sscanf(g_faults[i], "stostartfail %d %d", &d, &c) == 2) g_mock.sto_start_fails[d] = c;
+        else if (sscanf(g_faults[i], "stostopawait %d", &d) == 1) g_mock.sto_stop_await[d] = 1;
     }
     detsched_init(&cfg);
     printf("RUN %s", spec);
@@ -612,7 +615,7 @@ int main(void)
         else if (!strncmp(p, "hang ", 5)) g_hang_rounds = atoi(p + 5);
         else if (!strncmp(p, "cosim ", 6)) g_cosim = atoi(p + 6);
         else if (!strncmp(p, "fault ", 6)) { if (g_nfaults < 16) { snprintf(g_faults[g_nfaults], 64, "%s", p + 6); g_nfaults++; } }
-        else if (!strncmp(p, "camempty ", 9) || !strncmp(p, "camstartfail ", 13) || !strncmp(p, "openfail ", 9) || !strncmp(p, "descfail ", 9)) { if (g_nfaults < 16) { snprintf(g_faults[g_nfaults], 64, "%s", p); g_nfaults++; } }
+        else if (!strncmp(p, "camempty ", 9) || !strncmp(p, "camstartfail ", 13) || !strncmp(p, "openfail ", 9) || !strncmp(p, "descfail ", 9) || !strncmp(p, "stostartfail ", 13) || !strncmp(p, "stostopawait ", 13)) { if (g_nfaults < 16) { snprintf(g_faults[g_nfaults], 64, "%s", p); g_nfaults++; } }
         else if (!strncmp(p, "reset", 5)) { g_nprog = 0; g_nfaults = 0; g_cosim = 0; }
         else if (!strncmp(p, "prog ", 5)) {
             char* save = 0;
